@@ -662,9 +662,14 @@ func (dc *ClientDnsConnection) SetEncodingDownstream() error {
 // SendFragmentSizeTest will send a request for a "junk" fragment of specified size. This will allow us to check
 // if the (response) fragment of that size can pass through the DNS or not
 func (dc *ClientDnsConnection) SendFragmentSizeTest(fragsize uint32, timeout time.Duration) (*commands.TestDownstreamFragmentSizeResponse, error) {
+	// The answer repeats the query name (question section and record owner), so probe with a name
+	// as long as the longest name a data packet can have: dotted data + domain <= HostnameMaxLen-2.
+	room := util.HostnameMaxLen - 2 - len(dc.Serializer.Domain) - 2
+	chars := room - room/58 - 6 // minus the dots, the command, the cache buster and the user id
 	req := &commands.TestDownstreamFragmentSizeRequest{
 		UserId:       dc.userId,
 		FragmentSize: fragsize,
+		Padding:      uint32(chars*5/8 - 4),
 	}
 	resp, err := dc.Query(req, timeout)
 	if err != nil {
